@@ -498,6 +498,10 @@ where
             // calls again, yielding the runge-kutta steps.
             if self.yield_memory == O {
                 self.yield_memory -= 1;
+                // The derivative history has to advance with this step as well
+                self.prev_derivatives
+                    .push_back(self.implicit_derivs.clone());
+                self.prev_derivatives.pop_front();
                 return Err(IVPStatus::Redo);
             }
 
